@@ -18,8 +18,10 @@ from props import c01, c07
 import gen.consts as genconsts
 import gen.ff as genff
 import gen.topology as gentopo
+import gen.ffcharges as genffcharges
 
 GENERATORS = (gentopo.generate, genff.generate, genconsts.generate)
+GENERATORS2 = (genffcharges.generate,)
 TRUSTED_BASE = [
     "Lean 4.33.0 kernel; axioms ⊆ {propext, Classical.choice, Quot.sound}",
     "hand-written models lean/P2P/Model/{Termini,State,FF}.lean tied to biomolecule.py / aa.py / na.py by differential execution; topology and force-field tables regenerated from /repo each run",
@@ -255,6 +257,13 @@ def check_charges(ctx: Ctx, ff, run):
         want = int(ans[k])
         if info["is_nucleic"] and (info["5"] or info["3"]):
             continue  # terminal nucleotides are non-integral on their own; the strand total is checked
+        # the name-based specification the kernel-checked charge table uses must agree with the
+        # residue-based one (and with the real charge) for every fully parameterised amino residue
+        if info["is_amino"] and info["ffname"] and not (info["cls"] == "PRO" and info["n"]) and not (info["n"] and info["c"]):
+            byname = int(ctx.driver.ask([f"charge.formalname\t{hexs(info['ffname'])}"])[0])
+            ctx.count("formal-by-name", "agrees" if byname == want else "differs")
+            if byname != want:
+                ctx.disagree("formalOfName(ffname) vs formalCharge(residue)", {"ffname": info["ffname"], "patches": info["patches"]}, byname, want)
         if q != want:
             pos = "N" if info["n"] else "C" if info["c"] else "I"
             pr.append(({"ff": ff, "state": info["ffname"], "position": pos, "kind": "residue-charge"}, f"{res} ({info['ffname']}): charge {q}, formal charge {want}"))
